@@ -1,8 +1,10 @@
 (* C03 - Temporary bindings are undone on every exit, including errors.   *)
-(* Statements only; the proofs are in Proofs/EvalRel.v.                    *)
+(* Statements only; the proofs are in Proofs/EvalRel.v and Proofs/Frame.v   *)
+(* (on top of the hidden-entry simulation of Proofs/Hidden.v).              *)
 From TL Require Import Base.Base Model.Reader Model.Printer Model.Store Model.Eval Model.Init.
-From TL Require Import Proofs.EvalRel.
+From TL Require Import Proofs.EvalRel Proofs.Hidden Proofs.Tramp Proofs.Frame.
 Local Open Scope nat_scope.
+Local Open Scope list_scope.
 
 (* [depth s k] is the number of entries on the binding stack of symbol k,  *)
 (* [mc s k] the number of defmacro forms executed so far on k (a ghost     *)
@@ -56,6 +58,45 @@ Theorem C03_file_balanced :
 Proof. intros F fuel n s s' r H Hr. apply (eval_file_inv F fuel n s r s' H Hr). Qed.
 Print Assumptions C03_file_balanced.
 
+(* VALUES.  The entries of a binding stack strictly between the innermost and  *)
+(* the outermost one - the bindings that are shadowed - are out of reach of     *)
+(* every evaluation: whatever task is run, with whatever outcome, they are     *)
+(* still there afterwards, unchanged and in the same order, directly above the  *)
+(* outermost entry (which only defun / set_global can write).                   *)
+Theorem C03_shadowed_bindings_untouched :
+  forall F f t s k top M b r s',
+    bitems (sget s k) = top :: M ++ [b] ->
+    run F f t s = (r, s') -> r <> Fuel ->
+    exists X b', X <> [] /\ bitems (sget s' k) = X ++ M ++ [b'].
+Proof. exact frame_interior. Qed.
+Print Assumptions C03_shadowed_bindings_untouched.
+
+(* A call is: parse the parameter list, pair it with the arguments, then the   *)
+(* bracket [bind the parameters; run the body; unbind whatever the outcome].    *)
+Theorem C03_call_is_bracket : forall rec e ps body args,
+  eval_function rec e ps body args =
+  bind (lift (parse_params ps)) (fun pl =>
+  bind (zip_args rec e pl (items args)) (fun '(vs, rest) =>
+    match rest with
+    | _ :: _ => fail EType
+    | [] => bracket rec (map p_sym pl) vs body
+    end)).
+Proof. reflexivity. Qed.
+
+(* The bracket gives back what it shadowed: for every outcome of the body, a   *)
+(* parameter symbol that had bindings before the call has exactly those entries *)
+(* afterwards, value by value - only the outermost one may have been written    *)
+(* (by a defun of that symbol inside the body).  A defmacro of the parameter     *)
+(* symbol inside the body leaves a permanent entry and is excluded.              *)
+Theorem C03_call_gives_back_bindings :
+  forall F f syms vs body s r s',
+    Forall bindable syms -> List.length vs = List.length syms ->
+    bracket (run F f) syms vs body s = (r, s') -> r <> Fuel ->
+    forall k, In k (keys syms) -> 1 <= depth s k -> mc s' k = mc s k ->
+    exists b', bitems (sget s' k) = removelast (bitems (sget s k)) ++ [b'].
+Proof. exact call_restores. Qed.
+Print Assumptions C03_call_is_bracket. Print Assumptions C03_call_gives_back_bindings.
+
 (* the statements are not vacuous: an error that crosses a function call,  *)
 (* a let and a dolist, on the initial context                               *)
 Definition F0 : fops :=
@@ -76,9 +117,26 @@ Example C03_error_crosses_binders :
   var_items s2 (s2t "a") = [Int 7] /\ var_items s2 (s2t "b") = [] /\ var_items s2 (s2t "c") = [].
 Proof. vm_compute. repeat split. Qed.
 
+(* non-vacuity of the value theorems: a variable with three entries; a request *)
+(* that assigns, shadows, assigns again and fails leaves the two lower entries    *)
+Definition kx : key := key_of_name (s2t "x").
+Definition s3 : st :=
+  let s0 := init_state [] None in
+  sput s0 kx {| has_global := true; bitems := [Int 1; Int 2; Int 3] |}.
+Example C03_shadowed_example :
+  bitems (sget s3 kx) = Int 1 :: [Int 2] ++ [Int 3] /\
+  let '(r, s') := eval_string F0 60 (s2t "(setq x 10) (let ((x 4)) (setq x 5) (nofn))") s3 in
+  r = Err EType /\ bitems (sget s' kx) = [Int 10] ++ [Int 2] ++ [Int 3].
+Proof. vm_compute. repeat split. Qed.
+
 Check C03_request_balanced :
   forall (F : fops) (fuel : nat) (t : text) (s s' : st) (r : res sx),
     eval_string F fuel t s = (r, s') -> r <> Fuel ->
     forall k, depth s k <= depth s' k /\
               depth s' k + mc s k <= Nat.max (depth s k) 1 + mc s' k /\
               mc s k <= mc s' k.
+Check C03_shadowed_bindings_untouched :
+  forall F f t s k top M b r s',
+    bitems (sget s k) = top :: M ++ [b] ->
+    run F f t s = (r, s') -> r <> Fuel ->
+    exists X b', X <> [] /\ bitems (sget s' k) = X ++ M ++ [b'].
